@@ -13,6 +13,8 @@ pub mod c10;
 pub mod c12;
 pub mod c13;
 pub mod c14;
+pub mod c15;
+pub mod c16;
 
 pub fn all() -> Vec<(&'static str, fn() -> PropertyDef)> {
     vec![
@@ -29,5 +31,7 @@ pub fn all() -> Vec<(&'static str, fn() -> PropertyDef)> {
         ("C12", c12::def as fn() -> PropertyDef),
         ("C13", c13::def as fn() -> PropertyDef),
         ("C14", c14::def as fn() -> PropertyDef),
+        ("C15", c15::def as fn() -> PropertyDef),
+        ("C16", c16::def as fn() -> PropertyDef),
     ]
 }
